@@ -243,13 +243,19 @@ def workdir():
 
 
 # ---------------------------------------------------------------- solution -> flat map
-def flatten(sol, max_rows=60):
+def flatten(sol, max_rows=60, supplied=()):
     """-> (flat, conflicts): flat = {(SHEET_ID, r, c): value} from every
     solution node that is a single-area Ranges; a cell seen through two nodes
     with different values is a conflict."""
     flat, conflicts = {}, []
     for k, v in sol.items():
-        if isinstance(k, sut.sh.Token) or not isinstance(v, sut.Ranges):
+        if isinstance(k, sut.sh.Token):
+            continue
+        if not isinstance(v, sut.Ranges):
+            # every cell / range / name node of a model holds a Ranges; a raw Python object there is foreign
+            # (a node the caller supplied as input may come back as given when it lies outside the requested outputs)
+            if k not in supplied:
+                conflicts.append(('raw-node-value', str(k), type(v).__name__))
             continue
         if len(v.ranges) != 1:
             continue
@@ -591,8 +597,15 @@ def _tree(draw, ctx, depth):
         if name == 'LEFT':
             return ['fn', 'LEFT', inner, ['num', float(draw(st.integers(0, 4)))]]
         return ['fn', name, inner]
-    if k < 97:
+    if k < 96:
         return ['neg', draw(_tree(ctx, depth + 1))]
+    if k < 98:
+        a = draw(_range_arg(ctx))
+        if a[0] in ('rng', 'name'):
+            rect = a[1] if a[0] == 'rng' else ctx['spec']['names'][a[1]]['rect']
+            h, w = rect[4] - rect[2] + 1, rect[5] - rect[3] + 1
+            return ['fn', 'INDEX', a, ['num', float(draw(st.integers(1, h)))], ['num', float(draw(st.integers(1, w)))]]
+        return a if a[0] == 'ref' else ['fn', 'SUM', a]
     return ['bin', '^', draw(_scalar_ref(ctx)), ['num', float(draw(st.integers(1, 3)))]]
 
 
